@@ -713,6 +713,8 @@ def run_check(prop, tier, seed=None):
         problems.append("reachability table not met: " + ", ".join(missing))
     if n_paths == 0:
         problems.append("no path explored")
+    if n_unknown > max(2, 0.02 * max(1, n_obl)):
+        problems.append(f"{n_unknown} obligations undecided by the solver (unknown)")
     if aborted > max(2, 0.02 * max(1, n_paths)):
         problems.append(f"{aborted} aborted paths ({abort_reasons})")
     if any(v is False for v in proj_val):
